@@ -118,7 +118,7 @@ func joinAcceptMatchesBytes(ja *lorawan.JoinAcceptPayload, pl []byte) string {
 }
 
 func runC04(c *core.Ctx) {
-	n := c.N(30000, 1000000)
+	n := c.N(30000, 20000000)
 	for i := int64(0); i < n; i++ {
 		if !c.Mine("join", i) {
 			continue
